@@ -23,16 +23,22 @@ SigSites == {"ske12", "ske12srp", "cv12", "scv13", "ccv13", "phacv", "dcsig", "d
 \* "degenerate": a public value that makes the shared secret independent of the secret to be proven (SRP A = k*N:
 \*           the server's premaster becomes 0 whatever the password verifier is); the prover derives its keys from
 \*           that forced value, so nothing but the verifier's own check stands in the way
+\* "misplaced": a delegated credential that is valid for ANOTHER certificate of the chain (second entry) while the
+\*           end-entity certificate presented is someone else's
 Classes == {"none", "bitflip", "empty", "trunc", "extend", "otherkey", "otherdata", "declother", "wrongsecret", "absent", "stale",
-            "degenerate"}
+            "degenerate", "misplaced"}
 KeyTypes == {"rsa", "ecdsa", "dsa", "ed25519", "rsapss", "p384", "p521", "ed448", "bp256", "-"}
 
 \* which (site, class, key type, version) combinations exist
 Meaningful(c) ==
-  /\ (c.site \in SigSites => c.cls \in {"none", "bitflip", "empty", "trunc", "extend", "otherkey", "otherdata", "declother"})
+  /\ (c.site \in SigSites => c.cls \in {"none", "bitflip", "empty", "trunc", "extend", "otherkey", "otherdata", "declother", "degenerate",
+                                          "misplaced"})
+  /\ (c.cls = "misplaced" => c.site = "dcsig")
+  \* degenerate (r, s) pairs exist for the (EC)DSA family only
+  /\ (c.site \in SigSites /\ c.cls = "degenerate" => c.kt \in {"dsa", "ecdsa", "p384", "p521", "bp256"})
   /\ (c.site \in SigSites => c.kt # "-")
   /\ (c.site \notin SigSites => c.kt = "-" /\ c.cls \in {"none", "wrongsecret", "absent", "stale", "degenerate"})
-  /\ (c.cls = "degenerate" => c.site = "srp")
+  /\ (c.cls = "degenerate" => c.site = "srp" \/ c.site \in SigSites)
   /\ (c.cls = "absent" => c.site = "checker" /\ (c.role = "c" => c.ver = 3))
   /\ (c.cls = "stale" => c.site = "binder")
   /\ (c.site = "ske12" => c.ver \in 0..3 /\ c.kt \in {"rsa", "ecdsa", "dsa", "p384", "p521", "ed448"}
